@@ -294,7 +294,12 @@ fn diff_switchify_parts(
     let mut has_leftover_diff_switch = false;
     let to_diff_switch_or_scalar = |explicit_cases: Vec<ast::Expr>| {
         let first_case = &explicit_cases[0];
-        if explicit_cases.iter().all(|case| case == first_case) {
+        // (float literals are compared by bit pattern, so that e.g. 0.0 and -0.0 are kept apart)
+        let same_case = |a: &ast::Expr, b: &ast::Expr| match (a, b) {
+            (ast::Expr::LitFloat { value: a }, ast::Expr::LitFloat { value: b }) => a.to_bits() == b.to_bits(),
+            _ => a == b,
+        };
+        if explicit_cases.iter().all(|case| same_case(case, first_case)) {
             // all values for this arg are identical, keep just one
             explicit_cases.into_iter().next().unwrap()
         } else {
